@@ -46,9 +46,9 @@ CTORS = [
     dict(id="lognormal_from_mean_cv", ty="LogNormal", fn="from_mean_cv", args=[("mean", "F"), ("cv", "F")], post="lognormal_from_mean_cv_post(mean, cv, r)", stubs=["log", "sqrt_c"], **G("src/normal.rs", "LogNormal")),
     dict(id="exp_new", ty="Exp", fn="new", args=[("lambda", "F")], post="exp_new_post(lambda, r)", **G("src/exponential.rs", "Exp")),
     dict(id="gamma_new", ty="Gamma", fn="new", args=[("shape", "F"), ("scale", "F")], post="gamma_new_post(shape, scale, r)", stubs=["sqrt_c"], **G("src/gamma.rs", "Gamma")),
-    dict(id="chi_squared_new", ty="ChiSquared", fn="new", args=[("k", "F")], post="chi_squared_new_post(k, r)", stubs=["sqrt_c"], **G("src/chi_squared.rs", "ChiSquared")),
-    dict(id="student_t_new", ty="StudentT", fn="new", args=[("nu", "F")], post="chi_squared_new_post(nu, r)", stubs=["sqrt_c"], **G("src/student_t.rs", "StudentT")),
-    dict(id="fisher_f_new", ty="FisherF", fn="new", args=[("m", "F"), ("n", "F")], post="fisher_f_new_post(m, n, r)", stubs=["sqrt_c"], **G("src/fisher_f.rs", "FisherF")),
+    dict(id="chi_squared_new", ty="ChiSquared", fn="new", args=[("k", "F")], post="chi_squared_new_post(k, r)", stubs=["sqrt_c"], tier="thorough", timeout=1800, **G("src/chi_squared.rs", "ChiSquared")),
+    dict(id="student_t_new", ty="StudentT", fn="new", args=[("nu", "F")], post="chi_squared_new_post(nu, r)", stubs=["sqrt_c"], tier="thorough", timeout=2400, **G("src/student_t.rs", "StudentT")),
+    dict(id="fisher_f_new", ty="FisherF", fn="new", args=[("m", "F"), ("n", "F")], post="fisher_f_new_post(m, n, r)", stubs=["sqrt_c"], tier="thorough", timeout=3600, **G("src/fisher_f.rs", "FisherF")),
     dict(id="beta_new", ty="Beta", fn="new", args=[("alpha", "F"), ("beta", "F")], post="beta_new_post(alpha, beta, r)", stubs=["sqrt_c"], timeout=900, **G("src/beta.rs", "Beta")),
     dict(id="poisson_new", ty="Poisson", fn="new", args=[("lambda", "F")], post="poisson_new_post(lambda, F::from(Self::MAX_LAMBDA).unwrap(), r)", stubs=["exp", "sqrt_c", "floor", "log"], timeout=900, **G("src/poisson.rs", "Poisson")),
     dict(id="skew_normal_new", ty="SkewNormal", fn="new", args=[("location", "F"), ("scale", "F"), ("shape", "F")], post="skew_normal_new_post(location, scale, shape, r)", **G("src/skew_normal.rs", "SkewNormal")),
@@ -100,7 +100,7 @@ def c04_units():
     for c in CTORS:
         for fl in c.get("floats", ["f64", "f32"]):
             out.append({"harness": "verif_kani::c04_gen::" + harness_name(c, fl), "id": harness_name(c, fl), "property": ["C04"],
-                        "kind": "proof", "tier": "quick" if fl in ("f64", None) else "thorough",
+                        "kind": "proof", "tier": c.get("tier") or ("quick" if fl in ("f64", None) else "thorough"),
                         "solver": c.get("solver"), "timeout": c.get("timeout", 600),
                         "target": "%s::%s" % (c["ty"], c["fn"]), "file": c["file"], "float": fl,
                         "contract": "kani::ensures(|r| spec::%s)" % c["post"],
@@ -133,8 +133,33 @@ C04_EXTRA = [
 ]
 
 
+def _c03_one_draw():
+    out = []
+    table = [
+        ("cauchy", "Cauchy", "src/cauchy.rs", [("median", "F"), ("scale", "F")], ["tan"], "!x.is_nan() && words_consumed == 1"),
+        ("pareto", "Pareto", "src/pareto.rs", [("scale", "F"), ("shape", "F")], ["pow"], "!x.is_nan() && x >= scale && words_consumed == 1"),
+        ("weibull", "Weibull", "src/weibull.rs", [("scale", "F"), ("shape", "F")], ["pow", "log"], "!x.is_nan() && x >= 0 && words_consumed == 1"),
+        ("gumbel", "Gumbel", "src/gumbel.rs", [("location", "F"), ("scale", "F")], ["log"], "x.is_finite() && words_consumed == 1 (word making the uniform exactly 1 excluded: known finding)"),
+        ("frechet", "Frechet", "src/frechet.rs", [("location", "F"), ("scale", "F"), ("shape", "F")], ["pow", "log"], "!x.is_nan() && x >= location && words_consumed == 1 (word making the uniform exactly 1 excluded: known finding)"),
+        ("triangular", "Triangular", "src/triangular.rs", [("min", "F"), ("max", "F"), ("mode", "F")], ["sqrt_c"], "!x.is_nan() && words_consumed == 1"),
+    ]
+    for name, ty, file, args, stubs, obl in table:
+        for fl in ("f64", "f32"):
+            out.append(plain("c03_%s_%s" % (name, fl), "c03", ["C03"], "%s::sample" % ty, file,
+                             [(a, fl) for a, _ in args] + [("words", "words2")],
+                             "for all parameters in E and all RNG words: " + obl, tier="quick" if (fl == "f64") != (name == "triangular") else "thorough",
+                             timeout=900, stubs=stubs, replay={"kind": "sampler", "id": name, "float": fl}))
+    return out
+
+
+C03_UNITS = _c03_one_draw() + [
+    dict(plain("kf_gumbel_inf_f64", "c03", ["C03"], "Gumbel::sample", "src/gumbel.rs", [], "pinned known finding: Gumbel(0,1) at word u64::MAX is +inf", stubs=["log"]), expect="refuted"),
+    dict(plain("kf_frechet_neg_inf_f64", "c03", ["C03"], "Frechet::sample", "src/frechet.rs", [], "pinned known finding: Frechet(0,1,1) at word u64::MAX is -inf", stubs=["log", "pow"]), expect="refuted"),
+]
+
+
 def all_units():
-    return c04_units() + C04_EXTRA
+    return c04_units() + C04_EXTRA + C03_UNITS
 
 
 # ------------------------------------------------------------------ native replay dispatcher (generated Rust)
